@@ -58,6 +58,8 @@ def evaluate(rep, scenarios, fn, procs=16, chunksize=4, sample_fmt=None):
     t0 = time.time()
     items = list(enumerate(scenarios))
     aging.adapt(len(items), rep.tier)
+    if "aging" in rep.extra:
+        rep.extra["aging"]["rate"] = aging._ST["rate"]      # one fit in `rate` is aged in this evaluation
     if procs <= 1:
         it = map(_call, items)
         pool = None
